@@ -241,6 +241,8 @@ pub struct Env<'a> {
     pub root: bool,
     /// the driver may give the probe a time namespace of its own
     pub timens: bool,
+    /// the driver may trace the probe (to start it without a vDSO)
+    pub novdso: bool,
     /// relocation tables of the six builds (read from the executables)
     pub relocs: [Option<elf::RelocInfo>; NB],
     /// the optional builds that exist
@@ -596,13 +598,16 @@ pub fn run_case(env: &Env, c: &Case, scope: Scope) -> CaseResult {
             rep.class("relocation-slots-inspected");
         }
         let mut timens = if env.timens { c.timens } else { None };
-        let mut launched = launch::run(&path, &argv, &envp, &stdin, Duration::from_secs(20), set_ids, if set_ids.is_some() { c.egid } else { None }, timens);
-        if launched.is_err() && (set_ids.is_some() || timens.is_some()) {
+        let mut novdso = env.novdso && c.novdso;
+        let mut launched = launch::run(&path, &argv, &envp, &stdin, Duration::from_secs(20), set_ids, if set_ids.is_some() { c.egid } else { None }, timens, novdso);
+        if launched.is_err() && (set_ids.is_some() || timens.is_some() || novdso) {
             // e.g. an id that is not mapped in this user namespace: run it with the inherited ids instead
-            launched = launch::run(&path, &argv, &envp, &stdin, Duration::from_secs(20), None, None, None);
+            launched = launch::run(&path, &argv, &envp, &stdin, Duration::from_secs(20), None, None, None, false);
             run_ids = own;
             timens = None;
+            novdso = false;
         }
+        rep.class_if(novdso, "runs-without-a-vdso-in-its-auxiliary-vector");
         rep.class_if(timens.is_some(), "runs-in-a-time-namespace-with-shifted-clocks");
         let o = match launched {
             Ok(o) => o,
@@ -719,18 +724,20 @@ pub fn run(ctx: &Ctx) {
     );
     // changing the probe's ids needs root and a probe that other users may execute: try once
     let is_root = unsafe { libc::geteuid() } == 0
-        && matches!(launch::run(&probe_path(&root, 3), &[b"probe-env".to_vec()], &[], &[], Duration::from_secs(20), Some((4242, 2424)), Some(777), None), Ok(o) if o.exit == Some(0));
+        && matches!(launch::run(&probe_path(&root, 3), &[b"probe-env".to_vec()], &[], &[], Duration::from_secs(20), Some((4242, 2424)), Some(777), None, false), Ok(o) if o.exit == Some(0));
     ctx.extra("probe_ids", serde_json::json!(if is_root { "driver is root: 3 cases in 4 run the probe under generated uid/gid (fork+setgid+setuid+execve)" } else { "driver ids inherited (posix_spawn only)" }));
 
     // a time namespace needs CAP_SYS_ADMIN and a kernel that switches it at execve: try once
-    let can_timens = matches!(launch::run(&probe_path(&root, 3), &[b"probe-env".to_vec()], &[], &[], Duration::from_secs(20), None, None, Some((1000, 5000))), Ok(o) if o.exit == Some(0));
+    let can_timens = matches!(launch::run(&probe_path(&root, 3), &[b"probe-env".to_vec()], &[], &[], Duration::from_secs(20), None, None, Some((1000, 5000)), false), Ok(o) if o.exit == Some(0));
+    let can_novdso = matches!(launch::run(&probe_path(&root, 3), &[b"probe-env".to_vec()], &[], &[], Duration::from_secs(20), None, None, None, true), Ok(o) if o.exit == Some(0));
+    ctx.extra("probe_without_vdso", serde_json::json!(if can_novdso { "available: about 1 startup case in 7 starts the probe traced and rewrites AT_SYSINFO_EHDR to AT_IGNORE in its auxiliary vector before it runs" } else { "not available to the driver (ptrace refused)" }));
     ctx.extra("probe_time_namespace", serde_json::json!(if can_timens { "available: about 1 case in 3 of the startup sub-check runs the probe with CLOCK_MONOTONIC and CLOCK_BOOTTIME shifted by two different generated amounts" } else { "not available to the driver (clock brackets only in the initial time namespace, where monotonic and boottime may coincide)" }));
 
     // focused lookups first: what they report, the full sub-check does not report again
-    let env = Env { ctx, probe_dir: root.clone(), root: is_root, timens: can_timens, relocs: relocs.clone(), have, target: RefCell::new(None) };
+    let env = Env { ctx, probe_dir: root.clone(), root: is_root, timens: can_timens, novdso: can_novdso, relocs: relocs.clone(), have, target: RefCell::new(None) };
     ctx.run_prop_opts("lookup-var", ctx.cases(150, 3000), 600, lookup_case(thorough), |c: &Case| run_case(&env, c, Scope::Var));
-    let env = Env { ctx, probe_dir: root.clone(), root: is_root, timens: can_timens, relocs: relocs.clone(), have, target: RefCell::new(None) };
+    let env = Env { ctx, probe_dir: root.clone(), root: is_root, timens: can_timens, novdso: can_novdso, relocs: relocs.clone(), have, target: RefCell::new(None) };
     ctx.run_prop_opts("lookup-var-unix", ctx.cases(150, 3000), 600, lookup_case(thorough), |c: &Case| run_case(&env, c, Scope::VarUnix));
-    let env = Env { ctx, probe_dir: root, root: is_root, timens: can_timens, relocs: relocs.clone(), have, target: RefCell::new(None) };
+    let env = Env { ctx, probe_dir: root, root: is_root, timens: can_timens, novdso: can_novdso, relocs: relocs.clone(), have, target: RefCell::new(None) };
     ctx.run_prop_opts("startup", ctx.cases(1200, 20_000), 1500, startup_case(thorough), |c: &Case| run_case(&env, c, Scope::All));
 }
